@@ -8,7 +8,7 @@ CONSTANTS
   Hists <- NoHist
   BackoffCfgs <- BoCfgs
   Attempts <- BoAttempts
-INVARIANT TypeOK Returned NoLateContact
+INVARIANT TypeOK Returned NoLateContact NoEmptySuccess
 PROPERTIES P_C17 P_C18 P_Strict
 CONSTRAINT EmitCase
 CHECK_DEADLOCK FALSE
